@@ -586,7 +586,9 @@ impl Engine for RibbonEngine {
     fn finish(_ex: &mut Exec, _ctx: &mut Ctx) {}
 
     fn run(rng: &mut Rng, prof: &Profile, run: u64, sink: &mut Sink<Self>) {
-        if !prof.chaos && run % 8 == 7 {
+        if run == 3 && prof.tier == Tier::Thorough {
+            random_run_m(rng, prof, sink, true);
+        } else if !prof.chaos && run % 8 == 7 {
             sweep_run(rng, sink);
         } else {
             random_run(rng, prof, sink);
@@ -775,6 +777,10 @@ fn polls(rng: &mut Rng, t: &mut Trace<RibbonEngine>, p: f64) {
 }
 
 fn random_run(rng: &mut Rng, prof: &Profile, sink: &mut Sink<RibbonEngine>) {
+    random_run_m(rng, prof, sink, false)
+}
+
+fn random_run_m(rng: &mut Rng, prof: &Profile, sink: &mut Sink<RibbonEngine>, marathon: bool) {
     let small = rng.chance(0.55);
     let cfg = gen_cfg(rng, small);
     let b = cfg.boundary();
@@ -798,6 +804,16 @@ fn random_run(rng: &mut Rng, prof: &Profile, sink: &mut Sink<RibbonEngine>) {
     }
     let segs = 3 + rng.usize(if prof.tier == Tier::Thorough { 14 } else { 9 });
     let budget = (l as u64 * 24).max(400);
+    if marathon && !t.dead {
+        // a day of uptime with the finger lifted: more polls than a 32-bit sample counter holds, then the ribbon is played
+        if rng.chance(0.5) {
+            press(rng, &mut t, b, l + 5);
+        }
+        t.push(Ev::SamplesBlind(out_of_range(rng, b).to_bits(), u32::MAX - rng.below(3000) as u32));
+        t.push(Ev::Look);
+        t.push(Ev::SamplesBlind(out_of_range(rng, b).to_bits(), rng.range(1, 4000) as u32));
+        t.push(Ev::Look);
+    }
     // long-running blocks (where 8- and 16-bit counters wrap), in a small share of the runs
     if rng.chance(0.03) && !t.dead {
         if rng.chance(0.5) {
